@@ -4,4 +4,4 @@ from props.common import corpus_check
 
 
 def run(ctx):
-    return corpus_check(ctx, "C10", oracles.c10)
+    return corpus_check(ctx, "C10", oracles.c10, l1_oracle=lambda it: oracles.files_c10(it["impl"]["stubs"], it.get("module_names")))
